@@ -296,6 +296,22 @@ fn handle(line: &str, have_cfg: bool) -> String {
             .to_string()
                 + if errs.is_empty() { " " } else { "" }
         }
+        ["scan", rest @ ..] => {
+            let mut filter = "-".to_string();
+            let mut skip = false;
+            let mut data: Vec<u8> = vec![];
+            for t in rest {
+                if let Some((k, v)) = t.split_once('=') {
+                    match k {
+                        "filter" => filter = v.to_string(),
+                        "skip" => skip = v == "1",
+                        "data" => data = match parse_hex(v) { Some(d) => d, None => return "bad-op".into() },
+                        _ => {}
+                    }
+                }
+            }
+            scan_cmd(&filter, skip, &data)
+        }
         _ => "bad-op".into(),
     }
 }
@@ -303,6 +319,94 @@ fn handle(line: &str, have_cfg: bool) -> String {
 #[allow(non_snake_case)]
 fn LittleEndianU16(b: &[u8]) -> u64 {
     (b[0] as u64) | ((b[1] as u64) << 8)
+}
+
+struct HCfg {
+    link: Option<u8>,
+    fee: Option<u16>,
+    stave: Option<u16>,
+    skip: bool,
+}
+impl alice_protocol_reader::prelude::FilterOpt for HCfg {
+    fn skip_payload(&self) -> bool {
+        self.skip
+    }
+    fn filter_link(&self) -> Option<u8> {
+        self.link
+    }
+    fn filter_fee(&self) -> Option<u16> {
+        self.fee
+    }
+    fn filter_its_stave(&self) -> Option<u16> {
+        self.stave
+    }
+}
+
+/// the real reader thread (`spawn_reader`, batches of 100) on a temporary file, started the way
+/// `init_processing` starts it (first 8 bytes read as RDH0 beforehand)
+fn scan_cmd(filter: &str, skip: bool, data: &[u8]) -> String {
+    use alice_protocol_reader::input_scanner::InputScanner;
+    use alice_protocol_reader::stats::InputStatType;
+    let mut cfg = HCfg { link: None, fee: None, stave: None, skip };
+    if let Some((k, v)) = filter.split_once(':') {
+        let n: u32 = v.parse().unwrap_or(0);
+        match k {
+            "link" => cfg.link = Some(n as u8),
+            "fee" => cfg.fee = Some(n as u16),
+            "stave" => cfg.stave = Some(n as u16),
+            _ => {}
+        }
+    }
+    let dir = std::env::temp_dir().join(format!("fp_harness_{}", std::process::id()));
+    std::fs::create_dir_all(&dir).unwrap();
+    let path = dir.join("scan.raw");
+    std::fs::write(&path, data).unwrap();
+    let mut reader = alice_protocol_reader::init_reader(Some(&path)).unwrap();
+    let rdh0 = match alice_protocol_reader::rdh::Rdh0::load(&mut reader) {
+        Ok(r) => r,
+        Err(_) => return "n=0  | seen:0 filtered:0 payload:0".into(),
+    };
+    let (send, recv) = flume::unbounded::<InputStatType>();
+    let scanner = InputScanner::new_from_rdh0(&cfg, reader, Some(send), rdh0);
+    let stop = std::sync::Arc::new(std::sync::atomic::AtomicBool::new(false));
+    let (handle, data_recv) = alice_protocol_reader::spawn_reader::<RdhCru, 100>(stop, scanner);
+    let mut pk = vec![];
+    while let Ok(batch) = data_recv.recv() {
+        for (rdh, payload, off) in batch.into_iter() {
+            let mut first4 = 0u64;
+            for (i, b) in payload.iter().take(4).enumerate() {
+                first4 |= (*b as u64) << (8 * i);
+            }
+            pk.push(format!("{}:{}:{}:{}", off, to_hex(rdh.to_byte_slice()), payload.len(), first4));
+        }
+    }
+    handle.join().unwrap();
+    let mut ms = vec![];
+    for m in recv.try_iter() {
+        ms.push(match m {
+            InputStatType::Fatal(t) => {
+                // "RDH offset to next is <d>. \n[0x<pos>]:..."
+                let d = t.split("is ").nth(1).and_then(|x| x.split('.').next()).unwrap_or("?").to_string();
+                let p = t.split("[0x").nth(1).and_then(|x| x.split(']').next()).and_then(|x| u64::from_str_radix(x, 16).ok()).map(|x| x.to_string()).unwrap_or("?".into());
+                format!("fatal@{p}:{d}")
+            }
+            InputStatType::Error(e) => {
+                let c = canon_error(&e);
+                let parts: Vec<&str> = c.split(':').collect();
+                format!("err@{}:{}", parts[0], parts[1])
+            }
+            InputStatType::RunTriggerType(t) => format!("runtrig:{t}"),
+            InputStatType::DataFormat(f) => format!("df:{f}"),
+            InputStatType::SystemId(s) => format!("sys:{s}"),
+            InputStatType::LinksObserved(l) => format!("link:{l}"),
+            InputStatType::FeeId(f) => format!("fee:{f}"),
+            InputStatType::RDHSeen(n) => format!("seen:{n}"),
+            InputStatType::RDHFiltered(n) => format!("filtered:{n}"),
+            InputStatType::PayloadSize(n) => format!("payload:{n}"),
+        });
+    }
+    let _ = std::fs::remove_file(&path);
+    format!("n={} {} | {}", pk.len(), pk.join(" "), ms.join(" "))
 }
 
 fn panic_site(msg: &str) -> &'static str {
